@@ -352,6 +352,10 @@ def run_one(ck, prog):
                 a = c.args(bb)
                 if a and mentions(a[0], c.prov, is_map):
                     uses.append(("failure-unmap", bb, a[1]))
+                    # spawn's own clean-up (clone failed) gives the mapping back from its base too: an address inside the mapping - the stack
+                    # top - is not page aligned, the kernel refuses it, and the swallowed error leaves the whole stack mapped
+                    ck.ob("C06.4", "failure-path-unmaps-from-the-mapping-base", is_base(a[0]), fn=T.SPAWN, site=c.site(bb),
+                          detail=f"munmap is given {show(a[0])[:90]}; must be the address mmap returned (no arithmetic on the way)")
             for bb, t in c.cfg.calls(lambda t: (t.get("callee") or "").endswith("__clone")):
                 a = c.args(bb)
                 if len(a) == 8:
